@@ -1,3 +1,5 @@
 import Indi.Properties.C07
+import Indi.Properties.C07b
 #print axioms Indi.Dev.C07_response
 #print axioms Indi.Dev.C07_emitted_valid
+#print axioms Indi.Dev.flags_follow_history
